@@ -1,6 +1,9 @@
 #!/bin/sh
 # usage: tools/try_mutant.sh <patch> <tier> <prop> [<prop>...]
 # applies the patch to /repo, runs the checks, restores /repo.
+# The coverage-guided search is off here unless VERIF_NO_FUZZ is set to the empty string (so that a
+# regression run measures the generators alone): VERIF_NO_FUZZ= tools/try_mutant.sh ...
+VERIF_NO_FUZZ="${VERIF_NO_FUZZ-1}"; export VERIF_NO_FUZZ
 patch="$1"; tier="$2"; shift 2
 cd /repo || exit 2
 # the evidence files in /verif must keep describing the unchanged tree
